@@ -1,11 +1,448 @@
 package main
 
+import (
+	"fmt"
+	"go/ast"
+	"go/token"
+	"strings"
+)
+
 func init() { extractors["C12"] = extractC12 }
 
-// C12: structural facts about (Retry).Middleware in message/router/middleware/retry.go.
+// C12: print the body of the closure returned by (Retry).Middleware (message/router/middleware/retry.go) in the
+// statement language of WmModel/GoRetry.lean – statements before the retry loop, the loop body, statements after it –
+// and derive the structural facts the model relies on from the same statements.
+//
+// The printer is dumb: every statement is matched against a fixed list of shapes (identifiers are resolved
+// structurally: the handler is the parameter of Middleware, the message the parameter of the closure, the
+// produced-messages / error variables are the two results of the first handler call, the back-off object is the
+// variable bound to backoff.NewExponentialBackOff(), the wait is the variable bound to its NextBackOff(), the counter
+// is the variable incremented in the loop); anything else is printed as `.unknown "<source>"`.
+type retryNames struct {
+	recv, h, msg       string // receiver, handler parameter, message parameter
+	prod, err          string // results of the handler call
+	bo, ctx, wait, num string // back-off object, context, wait time, retry counter
+	label              string // label of the loop
+}
+
 func extractC12(c *ctx) (Facts, error) {
 	facts := Facts{}
-	_, err := c.fn("message/router/middleware/retry.go", "Retry", "Middleware")
-	facts["middleware_found"] = err == nil
+	const rel = "message/router/middleware/retry.go"
+	before := []string{".unknown " + leanStr("closure not found")}
+	body, after := []string{}, []string{}
+	fd, err := c.fn(rel, "Retry", "Middleware")
+	var n retryNames
+	if err == nil {
+		var lit *ast.FuncLit
+		if fd.Recv != nil && len(fd.Recv.List[0].Names) == 1 {
+			n.recv = fd.Recv.List[0].Names[0].Name
+		}
+		if len(fd.Type.Params.List) == 1 && len(fd.Type.Params.List[0].Names) == 1 {
+			n.h = fd.Type.Params.List[0].Names[0].Name
+		}
+		if len(fd.Body.List) == 1 {
+			if rs, ok := fd.Body.List[0].(*ast.ReturnStmt); ok && len(rs.Results) == 1 {
+				lit, _ = rs.Results[0].(*ast.FuncLit)
+			}
+		}
+		if lit == nil || n.recv == "" || n.h == "" {
+			err = fmt.Errorf("%s: Middleware is not `return func(msg) {...}`", rel)
+		} else {
+			if len(lit.Type.Params.List) == 1 && len(lit.Type.Params.List[0].Names) == 1 {
+				n.msg = lit.Type.Params.List[0].Names[0].Name
+			}
+			before, body, after = c.retryStmts(&n, lit.Body.List)
+		}
+	}
+	facts["middleware_is_single_closure"] = err == nil
+
+	unknown := 0
+	for _, l := range [][]string{before, body, after} {
+		for _, s := range l {
+			if strings.HasPrefix(s, ".unknown") {
+				unknown++
+			}
+		}
+	}
+	facts["statements_before_loop"] = len(before)
+	facts["statements_in_loop"] = len(body)
+	facts["statements_after_loop"] = len(after)
+	facts["unknown_statements"] = unknown
+
+	// facts phrased over the printed statements (so a rename does not break them)
+	idx := func(l []string, pred func(string) bool) int { return indexOf(l, pred) }
+	pre := func(p string) func(string) bool { return func(s string) bool { return strings.HasPrefix(s, p) } }
+	// the MaxRetries check: operator and operands, placed directly after the increment, as the last statement of the loop
+	chk := idx(body, pre(".ifBreak"))
+	if chk >= 0 {
+		facts["maxretries_check"] = body[chk]
+		facts["maxretries_check_follows_increment"] = chk > 0 && body[chk-1] == ".incRetryNum"
+		facts["maxretries_check_is_last_in_loop"] = chk == len(body)-1
+	} else {
+		facts["maxretries_check"] = "missing"
+	}
+	ci := idx(before, pre(".setRetryNum"))
+	if ci >= 0 {
+		facts["counter_init"] = before[ci]
+	} else {
+		facts["counter_init"] = "missing"
+	}
+	// Stop check right after NextBackOff and before the select
+	nb, st, sel := idx(body, pre(".nextBackOff")), idx(body, pre(".ifStopRet")), idx(body, pre(".selectCtxTimer"))
+	facts["stop_check_between_nextbackoff_and_select"] = nb == 0 && st == 1 && sel == 2
+	if st >= 0 {
+		facts["stop_check"] = body[st]
+	} else {
+		facts["stop_check"] = "missing"
+	}
+	// the select has exactly {ctx.Done -> return producedMessages, err ; time.After(waitTime) -> go on}
+	if sel >= 0 {
+		facts["select"] = body[sel]
+	} else {
+		facts["select"] = "missing-or-different-alternatives"
+	}
+	// handler call after the select, success return right after it
+	call := idx(body, pre(".callH"))
+	facts["handler_call_after_select"] = sel >= 0 && call == sel+1
+	if call >= 0 && call+1 < len(body) {
+		facts["after_handler_call_in_loop"] = body[call+1]
+	}
+	if len(before) >= 2 {
+		facts["first_two_statements"] = before[0] + "; " + before[1]
+	}
+	// hook: arguments, before the increment
+	hk := idx(body, pre(".hookIfSet"))
+	if hk >= 0 {
+		facts["hook_call"] = body[hk]
+		facts["hook_before_increment"] = hk < idx(body, pre(".incRetryNum"))
+	} else {
+		facts["hook_call"] = "missing"
+	}
+	// final return carries err
+	if len(after) == 1 {
+		facts["final_return"] = after[0]
+	} else {
+		facts["final_return"] = "not-a-single-return"
+	}
+	// back-off wiring and reset
+	var wiring []string
+	for _, s := range before {
+		if strings.HasPrefix(s, ".setBo") {
+			wiring = append(wiring, strings.TrimPrefix(s, ".setBo "))
+		}
+	}
+	facts["backoff_wiring"] = wiring
+	facts["reset_is_last_before_loop"] = len(before) > 0 && before[len(before)-1] == ".reset"
+	facts["ctx_deadline_guard_present"] = idx(before, pre(".ctxFromMsg")) >= 0 && idx(before, pre(".ctxTimeoutIfElapsed")) > idx(before, pre(".ctxFromMsg"))
+
+	var sb strings.Builder
+	sb.WriteString("/- GENERATED by harness/cmd/extract from message/router/middleware/retry.go on every run – do not edit -/\n")
+	sb.WriteString("import WmModel.GoRetry\nnamespace Wm.GoRetry.Gen\nopen Wm.GoRetry\n\n")
+	for _, p := range []struct {
+		name string
+		l    []string
+	}{{"before", before}, {"loopBody", body}, {"after", after}} {
+		if len(p.l) == 0 {
+			fmt.Fprintf(&sb, "def %s : List Stmt := []\n\n", p.name)
+			continue
+		}
+		fmt.Fprintf(&sb, "def %s : List Stmt := [\n  %s\n]\n\n", p.name, strings.Join(p.l, ",\n  "))
+	}
+	sb.WriteString("end Wm.GoRetry.Gen\n")
+	if werr := c.writeLean("RetryBody.lean", sb.String()); werr != nil {
+		return facts, werr
+	}
 	return facts, err
+}
+
+// retryStmts splits the closure body at the (labelled) for loop and prints the three parts.
+func (c *ctx) retryStmts(n *retryNames, list []ast.Stmt) (before, body, after []string) {
+	loopAt := -1
+	var loop *ast.ForStmt
+	for i, st := range list {
+		s := st
+		if ls, ok := s.(*ast.LabeledStmt); ok {
+			if fs, ok := ls.Stmt.(*ast.ForStmt); ok {
+				n.label = ls.Label.Name
+				loop, loopAt = fs, i
+				break
+			}
+		}
+		if fs, ok := s.(*ast.ForStmt); ok {
+			loop, loopAt = fs, i
+			break
+		}
+	}
+	if loop == nil || loop.Init != nil || loop.Cond != nil || loop.Post != nil {
+		// no plain `for { }`: everything is "before", the tie theorem cannot hold
+		for _, st := range list {
+			before = append(before, ".unknown "+leanStr(c.src(st)))
+		}
+		return
+	}
+	// names bound inside the loop are needed for the statements before it only in one case (none); scan the loop first
+	// for the counter (the variable incremented) so that `retryNum := 1` before the loop is recognised
+	for _, st := range loop.Body.List {
+		if id, ok := st.(*ast.IncDecStmt); ok && id.Tok == token.INC {
+			if x, ok := id.X.(*ast.Ident); ok {
+				n.num = x.Name
+			}
+		}
+	}
+	for _, st := range list[:loopAt] {
+		before = append(before, c.retryStmt(n, st, false))
+	}
+	for _, st := range loop.Body.List {
+		body = append(body, c.retryStmt(n, st, true))
+	}
+	for _, st := range list[loopAt+1:] {
+		after = append(after, c.retryStmt(n, st, false))
+	}
+	return
+}
+
+func (n *retryNames) msgsE(s string) (string, bool) {
+	switch {
+	case s == "nil":
+		return ".nil", true
+	case n.prod != "" && s == n.prod:
+		return ".prod", true
+	}
+	return "", false
+}
+
+func (n *retryNames) errE(s string) (string, bool) {
+	switch {
+	case s == "nil":
+		return ".nil", true
+	case n.err != "" && s == n.err:
+		return ".err", true
+	}
+	return "", false
+}
+
+func (n *retryNames) intE(s string) (string, bool) {
+	switch {
+	case n.num != "" && s == n.num:
+		return ".retryNum", true
+	case s == n.recv+".MaxRetries":
+		return ".maxRetries", true
+	}
+	ok := len(s) > 0 && len(s) < 10
+	for _, ch := range s {
+		if ch < '0' || ch > '9' {
+			ok = false
+		}
+	}
+	if ok {
+		return "(.lit " + s + ")", true
+	}
+	return "", false
+}
+
+var retryFields = map[string]string{
+	"InitialInterval": ".initialInterval", "MaxInterval": ".maxInterval", "Multiplier": ".multiplier",
+	"MaxElapsedTime": ".maxElapsedTime", "RandomizationFactor": ".randomizationFactor",
+}
+
+// ret2 recognises `return m, e`.
+func (c *ctx) ret2(n *retryNames, st ast.Stmt) (string, string, bool) {
+	rs, ok := st.(*ast.ReturnStmt)
+	if !ok || len(rs.Results) != 2 {
+		return "", "", false
+	}
+	m, ok1 := n.msgsE(c.src(rs.Results[0]))
+	e, ok2 := n.errE(c.src(rs.Results[1]))
+	return m, e, ok1 && ok2
+}
+
+// recvFrom recognises `<-X` used as a statement or `case <-X:` and returns X.
+func recvFrom(st ast.Stmt) ast.Expr {
+	es, ok := st.(*ast.ExprStmt)
+	if !ok {
+		return nil
+	}
+	ue, ok := es.X.(*ast.UnaryExpr)
+	if !ok || ue.Op != token.ARROW {
+		return nil
+	}
+	return ue.X
+}
+
+func (c *ctx) retryStmt(n *retryNames, st ast.Stmt, inLoop bool) string {
+	unknown := ".unknown " + leanStr(c.src(st))
+	switch s := st.(type) {
+	case *ast.AssignStmt:
+		// producedMessages, err := h(msg)   /   producedMessages, err = h(msg)
+		if len(s.Lhs) == 2 && len(s.Rhs) == 1 {
+			if ce, ok := s.Rhs[0].(*ast.CallExpr); ok && c.src(ce.Fun) == n.h && len(ce.Args) == 1 && c.src(ce.Args[0]) == n.msg {
+				l0, l1 := c.src(s.Lhs[0]), c.src(s.Lhs[1])
+				if s.Tok == token.DEFINE && n.prod == "" {
+					n.prod, n.err = l0, l1
+					return ".callH"
+				}
+				if s.Tok == token.ASSIGN && l0 == n.prod && l1 == n.err {
+					return ".callH"
+				}
+			}
+			return unknown
+		}
+		if len(s.Lhs) != 1 || len(s.Rhs) != 1 {
+			return unknown
+		}
+		l, r := c.src(s.Lhs[0]), c.src(s.Rhs[0])
+		switch {
+		case s.Tok == token.DEFINE && r == "backoff.NewExponentialBackOff()":
+			n.bo = l
+			return ".newBackoff"
+		case s.Tok == token.ASSIGN && n.bo != "" && strings.HasPrefix(l, n.bo+".") && strings.HasPrefix(r, n.recv+"."):
+			f, ok1 := retryFields[strings.TrimPrefix(l, n.bo+".")]
+			src, ok2 := retryFields[strings.TrimPrefix(r, n.recv+".")]
+			if ok1 && ok2 {
+				return ".setBo " + f + " " + src
+			}
+		case s.Tok == token.DEFINE && r == n.msg+".Context()":
+			n.ctx = l
+			return ".ctxFromMsg"
+		case s.Tok == token.DEFINE && n.num != "" && l == n.num:
+			if v, ok := n.intE(r); ok && strings.HasPrefix(v, "(.lit ") {
+				return ".setRetryNum " + strings.TrimSuffix(strings.TrimPrefix(v, "(.lit "), ")")
+			}
+		case s.Tok == token.DEFINE && n.bo != "" && r == n.bo+".NextBackOff()" && inLoop:
+			n.wait = l
+			return ".nextBackOff"
+		}
+	case *ast.ExprStmt:
+		if n.bo != "" && c.src(s.X) == n.bo+".Reset()" {
+			return ".reset"
+		}
+	case *ast.IncDecStmt:
+		if s.Tok == token.INC && n.num != "" && c.src(s.X) == n.num {
+			return ".incRetryNum"
+		}
+	case *ast.ReturnStmt:
+		if m, e, ok := c.ret2(n, s); ok {
+			return ".ret " + m + " " + e
+		}
+	case *ast.SelectStmt:
+		// exactly two alternatives: `case <-ctx.Done(): return m, e` and `case <-time.After(waitTime):` with an empty body
+		if len(s.Body.List) != 2 || n.ctx == "" || n.wait == "" {
+			return unknown
+		}
+		var ctxAlt, timerAlt string
+		for _, cl := range s.Body.List {
+			cc, ok := cl.(*ast.CommClause)
+			if !ok || cc.Comm == nil {
+				return unknown // a default clause or something else
+			}
+			x := recvFrom(cc.Comm)
+			if x == nil {
+				return unknown
+			}
+			switch c.src(x) {
+			case n.ctx + ".Done()":
+				if len(cc.Body) == 1 {
+					if m, e, ok := c.ret2(n, cc.Body[0]); ok {
+						ctxAlt = m + " " + e
+					}
+				}
+			case "time.After(" + n.wait + ")":
+				if len(cc.Body) == 0 {
+					timerAlt = ".wait"
+				}
+			}
+		}
+		if ctxAlt != "" && timerAlt != "" {
+			return ".selectCtxTimer " + ctxAlt + " " + timerAlt
+		}
+	case *ast.IfStmt:
+		if s.Init != nil || s.Else != nil {
+			return unknown
+		}
+		be, ok := s.Cond.(*ast.BinaryExpr)
+		if !ok {
+			return unknown
+		}
+		l, r := c.src(be.X), c.src(be.Y)
+		one := func() ast.Stmt {
+			if len(s.Body.List) == 1 {
+				return s.Body.List[0]
+			}
+			return nil
+		}
+		switch {
+		// if err == nil { return m, e }
+		case be.Op == token.EQL && n.err != "" && l == n.err && r == "nil" && one() != nil:
+			if m, e, ok := c.ret2(n, one()); ok {
+				return ".ifErrNilRet " + m + " " + e
+			}
+		// if waitTime == backoff.Stop { return m, e }
+		case be.Op == token.EQL && n.wait != "" && l == n.wait && r == "backoff.Stop" && one() != nil:
+			if m, e, ok := c.ret2(n, one()); ok {
+				return ".ifStopRet " + m + " " + e
+			}
+		// if r.MaxElapsedTime > 0 { var cancel func(); ctx, cancel = context.WithTimeout(ctx, r.MaxElapsedTime); defer cancel() }
+		case be.Op == token.GTR && l == n.recv+".MaxElapsedTime" && r == "0" && n.ctx != "":
+			var cancelName string
+			okAssign, okDefer := false, false
+			for _, b := range s.Body.List {
+				switch x := b.(type) {
+				case *ast.DeclStmt:
+				case *ast.AssignStmt:
+					if len(x.Lhs) == 2 && len(x.Rhs) == 1 && c.src(x.Lhs[0]) == n.ctx &&
+						c.src(x.Rhs[0]) == "context.WithTimeout("+n.ctx+", "+n.recv+".MaxElapsedTime)" {
+						cancelName = c.src(x.Lhs[1])
+						okAssign = true
+					} else {
+						return unknown
+					}
+				case *ast.DeferStmt:
+					if cancelName != "" && c.src(x.Call) == cancelName+"()" {
+						okDefer = true
+					} else {
+						return unknown
+					}
+				default:
+					return unknown
+				}
+			}
+			if okAssign && okDefer {
+				return ".ctxTimeoutIfElapsed"
+			}
+		// if r.Logger != nil { r.Logger.Error(…) }
+		case be.Op == token.NEQ && l == n.recv+".Logger" && r == "nil" && one() != nil:
+			if es, ok := one().(*ast.ExprStmt); ok {
+				if ce, ok := es.X.(*ast.CallExpr); ok && strings.HasPrefix(c.src(ce.Fun), n.recv+".Logger.") {
+					return ".logIfLogger"
+				}
+			}
+		// if r.OnRetryHook != nil { r.OnRetryHook(a0, a1) }
+		case be.Op == token.NEQ && l == n.recv+".OnRetryHook" && r == "nil" && one() != nil:
+			if es, ok := one().(*ast.ExprStmt); ok {
+				if ce, ok := es.X.(*ast.CallExpr); ok && c.src(ce.Fun) == n.recv+".OnRetryHook" && len(ce.Args) == 2 {
+					a0, ok0 := n.intE(c.src(ce.Args[0]))
+					if ok0 && n.wait != "" && c.src(ce.Args[1]) == n.wait {
+						return ".hookIfSet " + a0 + " .wait"
+					}
+				}
+			}
+		// if a <op> b { break retryLoop }
+		case one() != nil && inLoop:
+			bs, ok := one().(*ast.BranchStmt)
+			if !ok || bs.Tok != token.BREAK {
+				return unknown
+			}
+			if bs.Label != nil && bs.Label.Name != n.label {
+				return unknown
+			}
+			ops := map[token.Token]string{token.GTR: ".gt", token.GEQ: ".ge", token.LSS: ".lt", token.LEQ: ".le", token.EQL: ".eq", token.NEQ: ".ne"}
+			op, ok := ops[be.Op]
+			a, ok1 := n.intE(l)
+			b, ok2 := n.intE(r)
+			if ok && ok1 && ok2 {
+				return ".ifBreak " + op + " " + a + " " + b
+			}
+		}
+	}
+	return unknown
 }
